@@ -148,6 +148,11 @@ def run(ctx):
         ctx.check('R3', f'{name}.__init__ creates a fresh results channel unless one is supplied', fresh_r, own.short, 'results-channel-reused',
                   'a restarted worker reuses the result stream of the old incarnation: it can yield results of the previous incarnation', where=loc(own, own.node))
 
+    # a restart that fails while starting the new child leaves a worker that can be restarted again: the dead flag raised by the base
+    # constructor is lowered only behind the start of the child (shared with C04.R3)
+    from ..frame import check_dead_flag_lowering
+    check_dead_flag_lowering(ctx, 'R3')
+
     # ---------------------------------------------------------------- R4 Pool.restart_workers
     pool = P.cls('Pool')
     rw = pool.methods['restart_workers']
